@@ -53,6 +53,7 @@ let rec parse_ops (toks : string list) : op list =
        | 'K', _ -> let (qs, r) = take_q rest in ORelease (res_fun qs) :: parse_ops r
        | 'Z', _ -> let (qs, r) = take_q rest in ODrain (res_fun qs) :: parse_ops r
        | 'A', [d] -> OAdvance (z_of_string d) :: parse_ops rest
+       | 'U', [id; d] -> OTimer (nat_ id, z_of_string d) :: parse_ops rest
        | 'R', _ -> ORun :: parse_ops rest
        | 'F', _ -> parse_ops rest
        | _ -> failwith ("bad fs_poll op " ^ tok))
@@ -76,6 +77,7 @@ let fspoll_case (fx : bool) (line : string) : string =
          | EClosed (h, _) -> Buffer.add_string buf (Printf.sprintf "x%d" (int_of_nat h))
          | EStat p -> Buffer.add_string buf (Printf.sprintf "s%d" (int_of_nat p))
          | EIter -> Buffer.add_char buf 'g'
+         | EUser id -> Buffer.add_string buf (Printf.sprintf "u%d" (int_of_nat id))
          | EObs l ->
              Buffer.add_char buf 'o';
              List.iter (fun ((a, c), p) ->
